@@ -1251,6 +1251,17 @@ impl Channel {
 
         let validator = self.validator();
 
+        // once we released a signature on one of our own commitments (or on a
+        // mutual close) we must not revoke anything we have not revoked already
+        if self.enforcement_state.channel_closed {
+            policy_err!(
+                validator,
+                "policy-revoke-not-closed",
+                "cannot revoke commitment {} after a closing signature was released",
+                new_current_commitment_number.saturating_sub(1),
+            );
+        }
+
         if self.enforcement_state.next_holder_commit_info.is_none() {
             // the caller failed to call validate_holder_commitment_tx
             policy_err!(
